@@ -73,3 +73,21 @@ package blob
 //@   loop 2: invariant -1 <= rangeindex#2 && rangeindex#2 < len(commitmentProof.SubtreeRootProofs)
 //@   loop 2: invariant 0 <= subtreeRootsCursor && subtreeRootsCursor <= len(commitmentProof.SubtreeRoots)
 //@   loop 2: invariant forall j int :: 0 <= j && j <= rangeindex#2 ==> subtreeVerifiedAgainst(deref(commitmentProof.SubtreeRootProofs[j]), subtreeRootsWidth, commitmentProof.RowProof.RowRoots[j])
+
+// ---------------------------------------------------------------------------------------------
+// C20: the subscription goroutine. The stream has two cancellation sources: the subscriber's context
+// and the service's lifecycle context. While a retrieval keeps failing, the retry loop may go round
+// again only if, at the start of that attempt, neither source was cancelled (a cancellation that
+// happened before an attempt started ends the stream after that attempt at the latest). The retrieval
+// is made for the header that was just received.
+// (getAll fans out over namespaces in goroutines; it does not write the service)
+//@ func (*Service).getAll
+//@   property C20
+//@   trusted
+
+//@ func (*Service).Subscribe$1
+//@   property C20
+//@   noframe
+//@   callpre Service).getAll: $arg2 == header
+//@   loop 2: backedge !head(ctxDone(ctx))
+//@   loop 2: backedge !head(ctxDone(s.ctx))
